@@ -63,6 +63,7 @@ def corruptions():
         lambda t: t["ev"].__setitem__(len(t["ev"]) - 1, copy.deepcopy(t["ev"][first(t, is_act(5))])), "C02.after_last")
     mut("uses_storage_type(DISK) false", base, set_field(lambda e: True, 14, value=1 + 3 * 64 + 3 * 512), "C11.under_report")
     mut("uses_storage_type raises", base, set_field(lambda e: True, 14, value=1 + 4 * 8), "C11.no_raise")
+    mut("repr does not round-trip", base, set_field(is_act(0), 15, value=0 + 8 * 0 + 64 * 1 + 512 * 1 + 4096 * 2), "C18.repr_roundtrip")
     mut("float step number", base, set_field(is_act(0), 15, value=5 + 8 * 0 + 64 * 1 + 512 * 1 + 4096 * 2), "C18.shape")
     mut("second pass differs", two,
         lambda t: t["ev"][first(t, lambda e: is_act(0)(e) and e[6] == 0 and e[5] == 0 and e[7] == 2, 3)].__setitem__(4, 99), "C09.repeat")
